@@ -33,14 +33,25 @@ Cons(t) ==
                     C1("hour", d), C1("minute", d), C1("second", d), C1("totaloffsetminutes", d), Bin("add", n, ILit), Bin("mod", n, ILit),
                     Bin("mul", n, ILit), P("a", <<"p">>), P("a", <<"b", "c">>),
                     \* a second relationship into the same model, alone and next to the first
-                    P("a2", <<"p">>), Bin("add", P("a", <<"p">>), P("a2", <<"p">>)), Bin("sub", P("a2", <<"b", "c">>), P("a", <<"b", "c">>)), C1("length", l), C1("length", Lst(<<ILit, IntL(7302)>>)) }
+                    P("a2", <<"p">>), Bin("add", P("a", <<"p">>), P("a2", <<"p">>)), Bin("sub", P("a2", <<"b", "c">>), P("a", <<"b", "c">>)), C1("length", l), C1("length", Lst(<<ILit, IntL(7302)>>)),
+                    \* built-ins called with named parameters (names a handler may or may not know)
+                    Call(Id0("length"), <<Named(Id0("field"), s)>>), Call(Id0("length"), <<Named(Id0("arg"), s)>>),
+                    Call(Id0("indexof"), <<Named(Id0("text"), s), Named(Id0("search"), SLit)>>) }
     [] t = "F" -> { FLit, Lit("Float", "7.301e3"), C1("round", f), C1("floor", f), C1("ceiling", f), C1("fractionalseconds", d), C1("totalseconds", du),
                     G("distance", <<g, GEOLit>>), G("length", <<g>>), Bin("div", f, FLit), Bin("sub", f, FLit) }
     [] t = "S" -> { SLit, StrL(<<113, 39, 55, 120>>), C1("tolower", s), C1("toupper", s), C1("trim", s), C2("concat", s, SLit), C2("substring", s, ILit),
-                    Call(Id0("substring"), <<s, IntL(1), ILit>>), P("a", <<"name">>) }
+                    Call(Id0("substring"), <<s, IntL(1), ILit>>), P("a", <<"name">>),
+                    Call(Id0("tolower"), <<Named(Id0("value"), s)>>), Call(Id0("tolower"), <<Named(Id0("field"), s)>>),
+                    \* the same parameter twice: both literals have to survive (or the call is refused)
+                    Call(Id0("substring"), <<Named(Id0("fullstr"), s), Named(Id0("index"), ILit), Named(Id0("index"), IntL(7302))>>),
+                    Call(Id0("substring"), <<s, Named(Id0("index"), ILit), Named(Id0("nchars"), IntL(7302))>>) }
     [] t = "B" -> { BoolL("true"), b, C2("contains", s, SLit), C2("startswith", s, SLit), C2("endswith", s, SLit), C2("matchesPattern", s, SLit),
                     C2("hassubset", l, Lst(<<ILit, IntL(7302)>>)), C2("hassubsequence", l, Lst(<<ILit, IntL(7302)>>)), G("intersects", <<g, GEOLit>>),
                     Cmp("eq", n, ILit), Cmp("ne", s, NullL), Cmp("in", n, Lst(<<ILit, IntL(7302)>>)), Cmp("in", s, Lst(<<SLit>>)), Un("not", b),
+                    \* a literal on the LEFT of `in`, fields among the members
+                    Cmp("in", ILit, Lst(<<n, IntL(7302)>>)), Cmp("in", SLit, Lst(<<s, StrL(StrCps("q8y"))>>)),
+                    Call(Id0("contains"), <<Named(Id0("haystack"), s), Named(Id0("needle"), SLit)>>),
+                    Call(Id0("contains"), <<Named(Id0("field"), s), Named(Id0("substr"), SLit)>>),
                     Coll(Id0("cs"), "any", None), Coll(Id0("cs"), "any", Lam(x, Cmp("eq", P("x", <<"n">>), ILit))),
                     Coll(Id0("cs"), "all", Lam(x, Cmp("gt", P("x", <<"n">>), ILit))), Coll(P("a", <<"cs">>), "any", None),
                     Bool("and", Cmp("lt", n, ILit), Cmp("ge", f, FLit)), Bool("or", b, Cmp("eq", s, SLit)),
@@ -60,7 +71,8 @@ FieldOf(t) == CASE t = "I" -> n [] t = "F" -> f [] t = "S" -> s [] t = "B" -> b 
 Ctxs(t) ==
   (IF t \in {"L"} THEN {} ELSE { <<"cmp-left", Cmp("eq", H, FieldOf(t))>>, <<"cmp-right", Cmp("ne", FieldOf(t), H)>> })
   \cup (IF t \in {"L", "B", "N", "GEO"} THEN {} ELSE { <<"cmp-order", Cmp("lt", H, FieldOf(t))>>, <<"list-element", Cmp("in", FieldOf(t), Lst(<<H, H>>))>>,
-                                                  <<"list-singleton", Cmp("in", FieldOf(t), Lst(<<H>>))>> })
+                                                  <<"list-singleton", Cmp("in", FieldOf(t), Lst(<<H>>))>>,
+                                                  <<"in-left", Cmp("in", H, Lst(<<FieldOf(t), FieldOf(t)>>))>> })
   \cup { <<"custom-arg", Call(Id(<<"f">>, "g"), <<H>>)>>, <<"named-arg", Call(Id(<<"f">>, "g"), <<Named(Id0("k"), H)>>)>> }
   \cup (CASE t = "B" -> { <<"top", H>>, <<"not-operand", Un("not", H)>>, <<"and-operand", Bool("and", H, Cmp("eq", n, IntL(1)))>>,
                          <<"or-operand", Bool("or", Cmp("eq", n, IntL(1)), H)>>, <<"lambda-body", Coll(Id0("cs"), "any", Lam(Id0("y"), H))>>,
